@@ -241,18 +241,28 @@ def minimise_program(prog, order_a, order_b, job, scratch, budget=24):
 
 
 def typedef_of_blocklisted_crosses(prog, order_a, order_b):
-    """True if a typedef of a block-listed type stands before that type's
-    definition in one of the two orders and after it in the other (the trigger
-    of the known finding C07-typedef-of-forward-declared-blocklisted-type)."""
+    """True if a typedef or a variable declaration that names a block-listed
+    type — or a type that embeds one by value, transitively — stands before that
+    type's definition in one of the two orders and after it in the other (the
+    trigger of the known finding C07-typedef-of-forward-declared-blocklisted-type:
+    the type is then first met through a forward declaration)."""
     blocked = {prog.flags[i + 1] for i, f in enumerate(prog.flags[:-1]) if f == "--blocklist-type"}
+    tainted = set(blocked)
+    grew = True
+    while grew:
+        grew = False
+        for e in prog.entities:
+            if e.name not in tainted and (e.hard & tainted):
+                tainted.add(e.name)
+                grew = True
 
     def before(order, t, x):
         pos = {it: n for n, it in enumerate(order)}
         return pos.get(("def", t), -1) < pos.get(("def", x), 1 << 30)
 
     for e in prog.entities:
-        if e.kind in ("typedef", "inst_typedef"):
-            for x in (e.soft | e.hard) & blocked:
+        if e.kind in ("typedef", "inst_typedef", "var"):
+            for x in (e.soft | e.hard) & tainted:
                 if before(order_a, e.name, x) != before(order_b, e.name, x):
                     return True
     return False
